@@ -365,13 +365,13 @@ fn keccak_squeeze(
     mut pos: usize,
     r: usize,
 ) -> usize {
+    let mut idx = 0;
     while outlen != 0 {
         if pos == r {
             keccakf1600_statepermute(s);
             pos = 0;
         }
         let mut i = pos;
-        let mut idx = 0;
         while i < r && i < pos + outlen {
             // println!("i = {}", i);
             // println!("out[idx] przed przypisaniem: {}", out[idx]);
